@@ -14,7 +14,7 @@ RULE = (
     "bytes delivered to client and server sessions in 4 prior histories under random chunkings: (a) random strings, (b) every node of "
     "valid messages x 20 corruption operators (lengths, tags, content, structure; with and without ancestor-length fix-up), (c) every "
     "single-byte substitution (255 values) at every offset of short messages, (d) every truncation followed by further bytes, "
-    "(e) filter/sequence nesting 10..20000 levels; non-trivial = input that the strict reference decoder does not accept as a "
+    "(e) filter/sequence nesting 10..20000 levels, (k) text fields of notices, results, bind and extended names that are not UTF-8; non-trivial = input that the strict reference decoder does not accept as a "
     "message stream; distinct by hash of (role, history, bytes, cuts)"
 )
 ASSUMPTIONS = [
